@@ -57,17 +57,21 @@ HEAVY = {
 
 
 def load_contract_module(path):
+    """the contract file as a Python module for the run-time monitors: spec functions become real functions, contract
+    bodies are never executed (only `def`s); the source is first given the verifier's meaning of implies / == / old
+    (pyvc.monitor.transform_module)"""
+    import ast as _ast
     name = 'vcontracts_' + os.path.basename(path)[:-3]
-    spec = importlib.util.spec_from_file_location(name, path)
-    m = importlib.util.module_from_spec(spec)
-    # contract bodies are never executed at import (only `def`s); spec functions become real functions
+    m = type(os)(name)
+    m.__file__ = path
     m.__dict__.update({k: v for k, v in vars(importlib.import_module('pyvc.api')).items() if not k.startswith('_')})
     for k in ('requires', 'ensures', 'raises', 'raises_nothing', 'modifies', 'decreases', 'invariant', 'variant',
-              'unroll', 'inline', 'use_lemma', 'ghost', 'pure', 'typed', 'fresh', 'old', 'check', 'returns', 'opaque',
+              'unroll', 'inline', 'use_lemma', 'ghost', 'pure', 'check', 'returns', 'opaque',
               'modifies_global', 'ensures_on_raise', 'variant', 'each'):
         m.__dict__.setdefault(k, lambda *a, **kw: True)
-    m.__dict__['typed'] = monitor_mod.typed
-    spec.loader.exec_module(m)
+    m.__dict__.update(monitor_mod.RUNTIME_HELPERS)
+    tree = monitor_mod.transform_module(_ast.parse(open(path).read(), filename=path))
+    exec(compile(tree, path, 'exec'), m.__dict__)
     return m
 
 
@@ -94,7 +98,7 @@ class Loaded:
 
     def monitors(self):
         cmods = {f: load_contract_module(f) for f in self.files}
-        return monitor_mod.Monitors(self.contracts, cmods)
+        return monitor_mod.Monitors(self.contracts, cmods, self.globals_decl, self.specs)
 
 
 def clause_key(oid):
@@ -115,6 +119,7 @@ def verify_targets(ld, targets, timeout_ms=30000, procs=16, short_for=None):
     """Run the engine on each target; returns (obligations, undecided list of (target, reason))."""
     obs, undecided = [], []
     t0 = time.time()
+    ld.engine.probes = []
     for t in targets:
         try:
             o = ld.engine.verify(t)
@@ -136,6 +141,9 @@ def verify_targets(ld, targets, timeout_ms=30000, procs=16, short_for=None):
             if short_for.get(clause_key(o.oid)) in ('unknown', 'error'):
                 o.timeout_ms = 2500
     discharge(obs, timeout_ms=timeout_ms, procs=procs)
+    ld.probes = list(ld.engine.probes)
+    if ld.probes:
+        discharge(ld.probes, timeout_ms=3000, procs=procs)
     return obs, undecided, gen_s, time.time() - t1
 
 
